@@ -11,6 +11,13 @@ pub mod c02;
 pub mod c04;
 pub mod c05;
 pub mod c06;
+pub mod c07;
+pub mod c08;
+pub mod c10;
+pub mod c12;
+pub mod c17;
+pub mod c13;
+pub mod c14;
 
 pub fn units(prop: &str, tier: Tier, seed: u64) -> Option<(Vec<Unit>, Meta)> {
     Some(match prop {
@@ -18,6 +25,13 @@ pub fn units(prop: &str, tier: Tier, seed: u64) -> Option<(Vec<Unit>, Meta)> {
         "C04" => (c04::units(tier, seed), c04::meta()),
         "C05" => (c05::units(tier, seed), c05::meta()),
         "C06" => (c06::units(tier, seed), c06::meta()),
+        "C07" => (c07::units(tier, seed), c07::meta()),
+        "C08" => (c08::units(tier, seed), c08::meta()),
+        "C10" => (c10::units(tier, seed), c10::meta()),
+        "C12" => (c12::units(tier, seed), c12::meta()),
+        "C13" => (c13::units(tier, seed), c13::meta()),
+        "C17" => (c17::units(tier, seed), c17::meta()),
+        "C14" => (c14::units(tier, seed), c14::meta()),
         _ => return None,
     })
 }
